@@ -5,6 +5,7 @@
 //  file LICENSE_1_0.txt or copy at http://www.boost.org/LICENSE_1_0.txt)
 
 #include <pika/config.hpp>
+#include <pika/config/verif_hooks.hpp>
 #include <pika/assert.hpp>
 #include <pika/async_mpi/mpi_polling.hpp>
 #include <pika/command_line_handling/get_env_var_as.hpp>
@@ -240,6 +241,7 @@ namespace pika::mpi::experimental {
         {
             pika::threads::detail::increment_global_activity_count();
             ++mpi_data_.all_in_flight_;
+            PIKA_VERIF_POINT(::pika::verif::mpi_request_queued);
             //
             PIKA_DETAIL_DP(
                 mpi_debug<5>, debug(str<>("CB queued"), ptr(req_callback.request_), mpi_data_));
@@ -399,7 +401,9 @@ namespace pika::mpi::experimental {
 
                 // decrement before invoking callback : race if invoked code checks in_flight
                 --mpi_data_.all_in_flight_;
+                PIKA_VERIF_POINT(::pika::verif::mpi_ready_dequeued, nullptr, ready_callback_.err_, 0);
                 PIKA_INVOKE(std::move(ready_callback_.cb_), ready_callback_.err_);
+                PIKA_VERIF_POINT(::pika::verif::mpi_callback_done, nullptr, ready_callback_.err_, 0);
                 pika::threads::detail::decrement_global_activity_count();
             }
 
@@ -487,6 +491,7 @@ namespace pika::mpi::experimental {
                                                            MPI_SUCCESS});
                                     // Remove the request from our vector to prevent retesting
                                     mpi_data_.requests_[req_init + index] = MPI_REQUEST_NULL;
+                                    PIKA_VERIF_POINT(::pika::verif::mpi_ready_enqueued);
                                 }
                             }
                             vsize -= req_size;
@@ -534,7 +539,9 @@ namespace pika::mpi::experimental {
 
                 // decrement before invoking callback : race if invoked code checks in_flight
                 --mpi_data_.all_in_flight_;
+                PIKA_VERIF_POINT(::pika::verif::mpi_ready_dequeued, nullptr, ready_callback_.err_, 1);
                 PIKA_INVOKE(std::move(ready_callback_.cb_), ready_callback_.err_);
+                PIKA_VERIF_POINT(::pika::verif::mpi_callback_done, nullptr, ready_callback_.err_, 1);
                 pika::threads::detail::decrement_global_activity_count();
             }
 
@@ -593,7 +600,9 @@ namespace pika::mpi::experimental {
 
                     // decrement before invoking callback : race if invoked code checks in_flight
                     --mpi_data_.all_in_flight_;
+                    PIKA_VERIF_POINT(::pika::verif::mpi_ready_dequeued, nullptr, status, 2);
                     PIKA_INVOKE(std::move(mpi_data_.callbacks_[index].cb_), status);
+                    PIKA_VERIF_POINT(::pika::verif::mpi_callback_done, nullptr, status, 2);
                     pika::threads::detail::decrement_global_activity_count();
                 }
             } while (event_handled == true);
